@@ -9,7 +9,7 @@ use vibrato::verif_hooks::{lattice_dump, LatticeDump};
 use crate::engine::{guard, Ctx, Opts, Report, Sub, Tier};
 use crate::gen::dict::{ConnChoice, DictParams, SpaceMode};
 use crate::props::common::{brief, build_case_dict, tok_case, TokCase, TokCaseParams};
-use crate::refmodel::{make_tokenizer, tokens_of, RefDict, RefLattice, Tok};
+use crate::refmodel::{tokens_of, RefDict, RefLattice, Tok};
 
 #[derive(Clone, Copy, PartialEq, Eq)]
 pub enum Which {
@@ -45,7 +45,7 @@ fn resource_case() -> BoxedStrategy<TokCase> {
     (
         vec(vec((0u8..4, any::<u16>(), 1u8..=3), 1..=8), 6),
         any::<bool>(),
-        vec((any::<bool>(), 0u8..10), 2..=3),
+        vec((any::<bool>(), 0u8..10, 0u8..8), 2..=3),
     )
         .prop_filter_map("resources unavailable", |(raw, with_user, raw_opts)| {
             let (spec, user) = resource_spec()?;
@@ -68,7 +68,8 @@ fn resource_case() -> BoxedStrategy<TokCase> {
             }
             let opts: Vec<crate::gen::dict::TokOpts> = raw_opts
                 .iter()
-                .map(|&(sp, g)| crate::gen::dict::TokOpts {
+                .map(|&(sp, g, history)| crate::gen::dict::TokOpts {
+                    history,
                     ignore_space: sp,
                     max_grouping_len: [0, 0, 0, 1, 2, 3, 24, 24, 1_000_000, 5][usize::from(g)],
                 })
@@ -394,7 +395,7 @@ impl LatticeCheck {
         let inv_r = inv(case.mapping.as_ref().map(|m| &m.1), rd.conn.num_right);
         for o in &case.opts {
             let dict = build_case_dict(&files, user, case.mapping.as_ref(), o.max_grouping_len % 2 == 1)?;
-            let tokenizer = make_tokenizer(dict, o.ignore_space, o.max_grouping_len)?;
+            let tokenizer = crate::refmodel::make_tokenizer_h(dict, o.ignore_space, o.max_grouping_len, o.history)?;
             let mut worker = tokenizer.new_worker();
             for s in &case.sentences {
                 let res = guard(|| {
